@@ -55,6 +55,17 @@ def gen_phys_spec(rng, nmax=9):
                 tgt = nodes[j]
                 if i not in tgt["args"] and i not in [a for _, a in tgt["kwargs"]] and i not in tgt["deps"]:
                     tgt["deps"] = sorted(tgt["deps"] + [i])
+    # sometimes a "hub": a source with several plain predecessors and several plain dependents (its Barrier survives
+    # `_prune_literal_if_trivial` when it is out of date)
+    hubs = [nd for nd in nodes if nd["kind"] in SOURCES and 2 <= nd["id"] <= n - 3]
+    if hubs and rng.random() < 0.3:
+        z = rng.choice(hubs)
+        i = z["id"]
+        z["deps"] = sorted(set(z["deps"]) | set(rng.sample(range(i), rng.choice([2, 2, 3]) if i >= 3 else 2)))
+        for j in rng.sample(range(i + 1, n), 2):
+            tgt = nodes[j]
+            if i not in tgt["args"] and i not in [a for _, a in tgt["kwargs"]] and i not in tgt["deps"]:
+                tgt["deps"] = sorted(tgt["deps"] + [i])
     argsof = {nd["id"]: set(nd["args"]) | {a for _, a in nd["kwargs"]} for nd in nodes}
     remaining = [nd["id"] for nd in nodes]
     created, order = set(), []
